@@ -16,6 +16,9 @@ pub mod c12;
 pub mod c13;
 pub mod c14;
 pub mod c15;
+pub mod c16;
+pub mod c17;
+pub mod c18;
 pub mod c19;
 
 pub struct Prop {
@@ -38,6 +41,9 @@ pub const PROPS: &[Prop] = &[
     Prop { id: "C13", run: c13::run, eval: c13::eval },
     Prop { id: "C14", run: c14::run, eval: c14::eval },
     Prop { id: "C15", run: c15::run, eval: c15::eval },
+    Prop { id: "C16", run: c16::run, eval: c16::eval },
+    Prop { id: "C17", run: c17::run, eval: c17::eval },
+    Prop { id: "C18", run: c18::run, eval: c18::eval },
     Prop { id: "C19", run: c19::run, eval: c19::eval },
 ];
 
